@@ -19,7 +19,30 @@ Ltac name_keys :=
   change [101; 112]%N with k_ep;
   change [99; 112]%N with k_cp;
   change [108; 110]%N with k_ln;
-  change [115; 116; 114; 105; 99; 116]%N with k_strict.
+  change [115; 116; 114; 105; 99; 116]%N with k_strict;
+  change [116; 114; 97; 105; 110; 105; 110; 103; 95; 115; 101; 116; 116; 105; 110; 103; 115]%N with k_training_settings;
+  change [101; 110; 99; 111; 100; 105; 110; 103]%N with k_encoding;
+  change [99; 111; 110; 102; 105; 103; 46; 116; 120; 116]%N with n_config_txt;
+  change [97; 108; 112; 104; 97; 98; 101; 116; 46; 116; 120; 116]%N with n_alphabet_txt;
+  change [73; 80; 46; 108; 101; 118; 101; 108]%N with n_ip_level;
+  change [69; 80; 46; 108; 101; 118; 101; 108]%N with n_ep_level;
+  change [67; 80; 46; 108; 101; 118; 101; 108]%N with n_cp_level;
+  change [76; 78; 46; 108; 101; 118; 101; 108]%N with n_ln_level;
+  change [79; 109; 101; 110]%N with n_omen;
+  change [109; 97; 120; 95; 111; 109; 101; 110; 95; 108; 101; 118; 101; 108]%N with k_max_omen_level;
+  change [109; 97; 120; 95; 108; 101; 110]%N with k_max_len;
+  change [49; 48]%N with k_ten.
+
+Lemma combine_snoc {A B : Type} (a : list A) (b : list B) x y :
+  length a = length b -> combine (a ++ [x]) (b ++ [y]) = combine a b ++ [(x, y)].
+Proof.
+  revert b. induction a as [|a0 a IH]; destruct b as [|b0 b]; cbn; intros H; try discriminate; [reflexivity|].
+  now rewrite IH by (now inversion H).
+Qed.
+
+Lemma getitem_dict_found {T C S : Type} (O : cfg_oracles T C S) (d : list (pyval T C S * pyval T C S)) k v :
+  is_key k = true -> dfind k d = Some v -> dy_getitem O (VDict d) k = XDone v.
+Proof. intros Hk Hf. unfold dy_getitem. now rewrite Hk, Hf. Qed.
 
 Lemma rt_len_3 {X : Type} (a b c : X) r : (rt_len (a :: b :: c :: r) =? 2)%Z = false.
 Proof. apply Z.eqb_neq. unfold rt_len. cbn [length]. lia. Qed.
@@ -49,9 +72,20 @@ Ltac range_check Hmax lvl E2 :=
   unfold dy_getitem at 1; cbn [is_key]; rewrite dfind_dput_other by reflexivity; rewrite Hmax;
   cbn [x_opt xthen dy_gt dy_lt xbind]; destruct (10 <? lvl)%Z eqn:E2; cbn [xbind x_isa rt_isa]; [reflexivity|].
 
+(* a loop over the lines of a file is the fold of STEP over the model states encoded by ENC, from M0;
+   first goal: the body is STEP on encoded states, second goal: what follows the loop *)
+Ltac lines_loop ENC STEP M0 :=
+  match goal with |- rt_for_lines ?all ?rest ?body ?s0 rt_no_else_file ?k = _ =>
+    let HB := fresh "HB" in
+    assert (HB : forall ln m, body ln (ENC m) = match STEP ln m with inl m' => FCont (ENC m') | inr v => FRet v end);
+    [ cbv beta
+    | rewrite (for_lines_fold ENC STEP body k HB rest all M0 : rt_for_lines all rest body s0 rt_no_else_file k = _);
+      clear HB ]
+  end.
+
 Section OmenGuesser.
-Context (fo : fops) {C S : Type} (W : world fo C S).
-Notation val := (pyval (F fo) C S).
+Context (fo : fops) {C SS : Type} (W : world fo C SS).
+Notation val := (pyval (F fo) C SS).
 Context (iws : N -> bool) (dz : list N).
 Hypothesis Hpint : forall s, w_pint W s = parse_int iws dz s.
 
@@ -78,7 +112,7 @@ Proof.
   match goal with |- _ = match ?o with _ => _ end => destruct o as [lines|e] end;
     cbn [xthen xbind]; [|now rewrite !if_same].
   unfold rt_for_file, rt_fopen. cbn [f_all f_rest].
-  change (VList []) with (@enc_strs (F fo) C S []).
+  change (VList []) with (@enc_strs (F fo) C SS []).
   rewrite (for_lines_fold (fun m => VDict (dput (VStr k_alphabet) (enc_strs m) g))
              (fun ln m => inl (m ++ [rstrip is_crlf ln]))).
   - rewrite fold_stop_inl, fold_snoc_map. reflexivity.
@@ -203,7 +237,7 @@ Proof.
     cbn [xthen xbind]; [|now rewrite !if_same].
   unfold rt_for_file, rt_fopen. cbn [f_all f_rest].
   change (VDict (level_dict (fun _ : nat => VList []) (seq 0 11)))
-    with (VDict (level_dict (fun l => @enc_strs (F fo) C S (bucket [] l)) (seq 0 11))).
+    with (VDict (level_dict (fun l => @enc_strs (F fo) C SS (bucket [] l)) (seq 0 11))).
   rewrite (for_lines_fold
              (fun its => VDict (dput (VStr k_ip) (VDict (level_dict (fun l => enc_strs (bucket its l)) (seq 0 11))) g))
              (items_step (Some 10%Z))).
@@ -225,7 +259,7 @@ Qed.
 
 (* ---- EP: grammar['ep'][ngram] = level *)
 Lemma dput_enc_ep k v (d : list (pstr * Z)) :
-  dput (VStr k) (VInt v) (map (fun kv => (@VStr (F fo) C S (fst kv), VInt (snd kv))) d) =
+  dput (VStr k) (VInt v) (map (fun kv => (@VStr (F fo) C SS (fst kv), VInt (snd kv))) d) =
   map (fun kv => (VStr (fst kv), VInt (snd kv))) (dict_set k v d).
 Proof.
   induction d as [|[k' v'] r IH]; cbn [map dput dict_set key_eqb fst snd]; [reflexivity|].
@@ -256,7 +290,7 @@ Proof.
   match goal with |- _ = match ?o with _ => _ end => destruct o as [lines|e] end;
     cbn [xthen xbind]; [|now rewrite !if_same].
   unfold rt_for_file, rt_fopen. cbn [f_all f_rest].
-  change (@VDict (F fo) C S []) with (@enc_ep (F fo) C S (ep_dict [])).
+  change (@VDict (F fo) C SS []) with (@enc_ep (F fo) C SS (ep_dict [])).
   rewrite (for_lines_fold (fun its => VDict (dput (VStr k_ep) (enc_ep (ep_dict its)) g)) (items_step (Some 10%Z))).
   - rewrite items_fold. now destruct (level_lines iws dz (Some 10%Z) lines) as [its|e].
   - intros ln its. unfold items_step, level_line. level_prefix ln f k lvl E1. range_check Hmax lvl E2.
@@ -285,8 +319,8 @@ Fixpoint cset (p : pstr) (m' : list (Z * pstr)) (d : list (pstr * list (Z * pstr
   | (q, m) :: r => if str_eqb p q then (q, m') :: r else (q, m) :: cset p m' r
   end.
 
-Notation encz := (map (fun lc : Z * pstr => (@VInt (F fo) C S (fst lc), @enc_chars (F fo) C S (snd lc)))).
-Notation encl := (map (fun pm : pstr * list (Z * pstr) => (@VStr (F fo) C S (fst pm), @enc_zdict (F fo) C S (snd pm)))).
+Notation encz := (map (fun lc : Z * pstr => (@VInt (F fo) C SS (fst lc), @enc_chars (F fo) C SS (snd lc)))).
+Notation encl := (map (fun pm : pstr * list (Z * pstr) => (@VStr (F fo) C SS (fst pm), @enc_zdict (F fo) C SS (snd pm)))).
 
 Lemma dfind_encz l m : dfind (VInt l) (encz m) = option_map enc_chars (zget l m).
 Proof. induction m as [|[l' cs] r IH]; cbn [map dfind zget key_eqb fst snd option_map]; [reflexivity|]. now destruct (Z.eqb l l'). Qed.
@@ -382,11 +416,11 @@ Proof.
   match goal with |- _ = match ?o with _ => _ end => destruct o as [lines|e] end;
     cbn [xthen xbind]; [|now rewrite !if_same].
   unfold rt_for_file, rt_fopen. cbn [f_all f_rest].
-  change (@VDict (F fo) C S []) with (@enc_cp (F fo) C S []).
+  change (@VDict (F fo) C SS []) with (@enc_cp (F fo) C SS []).
   rewrite (for_lines_fold (fun d => VDict (dput (VStr k_cp) (enc_cp d) g)) cp_items_step).
   - rewrite cp_items_fold. unfold pstr in *.
     match goal with |- _ = match ?o with _ => _ end => now destruct o end.
-  - change (@enc_cp (F fo) C S []) with (@VDict (F fo) C S []).
+  - change (@enc_cp (F fo) C SS []) with (@VDict (F fo) C SS []).
     intros ln d. unfold cp_items_step, level_line. level_prefix ln f k lvl E1. range_check Hmax lvl E2.
     cbn [dy_eq str_eqb k_ip k_ep k_cp N.eqb Pos.eqb andb xbind].
     rewrite getitem_1. cbn [xbind dy_slice dy_bound xthen].
@@ -398,7 +432,7 @@ Proof.
     assert (P1 : exists d1 m1, cget pre d1 = Some m1 /\
                m1 = match cget pre d with Some m => m | None => [] end /\
                d1 = cset pre m1 d /\
-               rt_join (fun k34 => if negb (match option_map (@enc_zdict (F fo) C S) (cget pre d) with Some _ => true | None => false end)
+               rt_join (fun k34 => if negb (match option_map (@enc_zdict (F fo) C SS) (cget pre d) with Some _ => true | None => false end)
                                    then xbind (dy_upd_item (w_cfg W) (VDict (dput (VStr k_cp) (enc_cp d) g)) (VStr k_cp)
                                                  (fun u35 => dy_setitem u35 (VStr pre) (VDict [])))
                                               (fun e => FRet (if x_isa (XC CIOError) e then XFail e else if x_isa (XC CValueError) e then XFail e
@@ -411,7 +445,7 @@ Proof.
       - exists (cset pre [] d), []. split; [apply cget_cset|]. split; [reflexivity|]. split; [reflexivity|].
         unfold rt_join. erewrite upd_item_found by (try reflexivity; apply dfind_dput_same; reflexivity).
         unfold enc_cp at 1. cbn [dy_setitem is_key xthen xbind].
-        change (@VDict (F fo) C S []) with (@enc_zdict (F fo) C S []). rewrite dput_encl.
+        change (@VDict (F fo) C SS []) with (@enc_zdict (F fo) C SS []). rewrite dput_encl.
         rewrite dput_dput_same by reflexivity. reflexivity. }
     destruct P1 as (d1 & m1 & Hc1 & Hm1 & Hd1 & ->). cbv beta.
     (* level not in grammar[name][search_string] *)
@@ -421,7 +455,7 @@ Proof.
     assert (P2 : exists d2 m2 cs, cget pre d2 = Some m2 /\ zget lvl m2 = Some cs /\
                cs = match zget lvl m1 with Some c0 => c0 | None => [] end /\
                m2 = zset lvl cs m1 /\ d2 = cset pre m2 d1 /\
-               rt_join (fun k39 => if negb (match option_map (@enc_chars (F fo) C S) (zget lvl m1) with Some _ => true | None => false end)
+               rt_join (fun k39 => if negb (match option_map (@enc_chars (F fo) C SS) (zget lvl m1) with Some _ => true | None => false end)
                                    then xbind (dy_upd_item (w_cfg W) (VDict (dput (VStr k_cp) (enc_cp d1) g)) (VStr k_cp)
                                                  (fun u41 => dy_upd_item (w_cfg W) u41 (VStr pre) (fun u40 => dy_setitem u40 (VInt lvl) (VList []))))
                                               (fun e => FRet (if x_isa (XC CIOError) e then XFail e else if x_isa (XC CValueError) e then XFail e
@@ -437,8 +471,8 @@ Proof.
         unfold rt_join. erewrite upd_item_found by (try reflexivity; apply dfind_dput_same; reflexivity).
         unfold enc_cp at 1. erewrite upd_item_found by (try reflexivity; rewrite dfind_encl, Hc1; reflexivity).
         unfold enc_zdict at 1. cbn [dy_setitem is_key xthen xbind].
-        change (@VList (F fo) C S []) with (@enc_chars (F fo) C S []). rewrite dput_encz.
-        change (VDict (encz (zset lvl [] m1))) with (@enc_zdict (F fo) C S (zset lvl [] m1)). rewrite dput_encl.
+        change (@VList (F fo) C SS []) with (@enc_chars (F fo) C SS []). rewrite dput_encz.
+        change (VDict (encz (zset lvl [] m1))) with (@enc_zdict (F fo) C SS (zset lvl [] m1)). rewrite dput_encl.
         rewrite dput_dput_same by reflexivity. reflexivity. }
     destruct P2 as (d2 & m2 & cs & Hc2 & Hz2 & Hcs & Hm2 & Hd2 & ->). cbv beta.
     (* grammar[name][search_string][level].append(line[1][-1]) *)
@@ -451,16 +485,186 @@ Proof.
       reflexivity.
     + rewrite getitem_str_last. rewrite rev_app_distr. cbn [rev app]. rewrite rev_involutive.
       cbn [xthen dy_append enc_chars].
-      replace (VList (map (fun c0 : N => @VStr (F fo) C S [c0]) cs ++ [VStr [c]])) with (@enc_chars (F fo) C S (cs ++ [c]))
+      replace (VList (map (fun c0 : N => @VStr (F fo) C SS [c0]) cs ++ [VStr [c]])) with (@enc_chars (F fo) C SS (cs ++ [c]))
         by (unfold enc_chars; now rewrite map_app).
       rewrite dput_encz. cbn [xthen].
-      change (VDict (encz (zset lvl (cs ++ [c]) m2))) with (@enc_zdict (F fo) C S (zset lvl (cs ++ [c]) m2)).
+      change (VDict (encz (zset lvl (cs ++ [c]) m2))) with (@enc_zdict (F fo) C SS (zset lvl (cs ++ [c]) m2)).
       rewrite dput_encl. cbn [xthen xbind]. rewrite dput_dput_same by reflexivity.
       do 4 f_equal. unfold enc_cp. do 2 f_equal.
       assert (Hpre : pre = G) by (unfold pre; apply rt_slice_init).
       rewrite cp_add_spec, zdict_add_spec. rewrite Hd2, Hm2, Hd1, Hcs, Hm1, Hpre. unfold pstr in *.
       rewrite !cset_cset, zset_zset.
       unfold pstr, str in *. match goal with |- context [zget lvl ?m] => destruct (zget lvl m) end; reflexivity.
+Qed.
+
+
+(* ---- LN: grammar['ln'][level].append(cur_length - (min_size - 1)) for cur_length >= min_size *)
+Definition lidx (lv : list Z) : list (Z * Z) := combine (map Z.of_nat (seq 1 (length lv))) lv.
+Definition lnb (n : Z) (lv : list Z) (l : nat) : list Z :=
+  map (fun p => (fst p - (n - 1))%Z) (filter (fun p => Z.eqb (snd p) (Z.of_nat l) && (n <=? fst p)%Z) (lidx lv)).
+
+Lemma ln_guesser_lnb n lv : ln_guesser n lv = map (lnb n lv) (seq 0 11).
+Proof. reflexivity. Qed.
+
+Lemma lidx_snoc lv x : lidx (lv ++ [x]) = lidx lv ++ [(Z.of_nat (S (length lv)), x)].
+Proof.
+  unfold lidx. rewrite app_length. cbn [length]. rewrite Nat.add_1_r, seq_S, map_app. cbn [map].
+  rewrite combine_snoc by (now rewrite map_length, seq_length). reflexivity.
+Qed.
+
+Lemma lnb_snoc n lv x l :
+  lnb n (lv ++ [x]) l =
+  lnb n lv l ++ (if Z.eqb x (Z.of_nat l) && (n <=? Z.of_nat (S (length lv)))%Z then [(Z.of_nat (S (length lv)) - (n - 1))%Z] else []).
+Proof.
+  unfold lnb. rewrite lidx_snoc, filter_app, map_app. cbn [filter fst snd].
+  now destruct (Z.eqb x (Z.of_nat l) && (n <=? Z.of_nat (S (length lv)))%Z).
+Qed.
+
+Definition ln_step {R : Type} (ln : pstr) (lv : list Z) : list Z + xres R :=
+  match ln_line iws dz (Some 10%Z) ln with
+  | inl l => inl (lv ++ [l])
+  | inr e => inr (XFail e)
+  end.
+
+Lemma ln_fold {R : Type} lines acc :
+  fold_stop (@ln_step R) lines acc =
+  match ln_lines iws dz (Some 10%Z) lines with
+  | inl lv => inl (acc ++ lv)
+  | inr e => inr (XFail e)
+  end.
+Proof.
+  revert acc. induction lines as [|ln r IH]; intros acc; cbn [fold_stop ln_lines]; [now rewrite app_nil_r|].
+  unfold ln_step at 1. destruct (ln_line iws dz (Some 10%Z) ln) as [l|e]; [|reflexivity].
+  rewrite IH. destruct (ln_lines iws dz (Some 10%Z) r); [|reflexivity]. now rewrite <- app_assoc.
+Qed.
+
+Lemma omen_load_length_eq dir file (g : list (val * val)) n :
+  dfind (VStr k_max_level) g = Some (VInt 10) ->
+  py_omen_load_length fo W (VStr dir) (VStr file) (VDict g) (VStr k_ln) (VInt n) =
+  match w_open W (w_path_join W [dir; file]) None None with
+  | XDone lines => match ln_lines iws dz (Some 10%Z) lines with
+                   | inl lv => XDone (VDict (dput (VStr k_ln) (enc_buckets enc_ints (ln_guesser n lv)) g), VNone)
+                   | inr e => XFail e
+                   end
+  | XFail e => XFail e
+  end.
+Proof.
+  intros Hmax. cbv beta zeta delta [py_omen_load_length]. name_keys.
+  cbn [xbind dy_setitem is_key].
+  unfold dy_getitem at 1. cbn [is_key]. rewrite dfind_dput_other by reflexivity. rewrite Hmax.
+  cbn [x_opt xbind dy_add dy_range dy_iter Z.add Pos.add Pos.succ].
+  rewrite init_levels by reflexivity.
+  cbn [dy_path_join strs_of option_map xbind dy_open]. unfold pstr in *.
+  match goal with |- _ = match ?o with _ => _ end => destruct o as [lines|e] end;
+    cbn [xthen xbind]; [|now rewrite !if_same].
+  unfold rt_for_file, rt_fopen. cbn [f_all f_rest].
+  lines_loop (fun lv => (@VDict (F fo) C SS (dput (VStr k_ln) (VDict (level_dict (fun l => enc_ints (lnb n lv l)) (seq 0 11))) g),
+                        @VInt (F fo) C SS (Z.of_nat (S (length lv)))))
+             (@ln_step (val * val)) (@nil Z).
+  - intros ln lv. unfold ln_step, ln_line.
+    cbn [dy_rstrip strip_pred xthen xbind dy_int x_opt]. rewrite rstrip_crlf, Hpint.
+    destruct (parse_int iws dz (rstrip is_crlf ln)) as [lvl|]; cbn [x_opt xthen xbind x_isa rt_isa]; [|reflexivity].
+    cbn [dy_lt xbind]. destruct (lvl <? 0)%Z eqn:E1; cbn [xbind x_isa rt_isa]; [reflexivity|].
+    range_check Hmax lvl E2.
+    cbn [dy_ge dy_le xbind rt_join].
+    destruct (level_in_range lvl E1 E2) as (j & -> & Hj).
+    destruct (n <=? Z.of_nat (S (length lv)))%Z eqn:E3; unfold rt_join.
+    + erewrite upd_item_found by (try reflexivity; apply dfind_dput_same; reflexivity).
+      erewrite upd_item_found by (try reflexivity; apply dfind_level_dict; exact Hj).
+      cbn [dy_sub xthen dy_append enc_ints xbind dy_add].
+      rewrite dput_level_dict by (try exact Hj; apply seq_NoDup).
+      rewrite dput_dput_same by reflexivity. f_equal. f_equal.
+      * do 3 f_equal. apply level_dict_ext. intros l Hl. rewrite lnb_snoc, E3, andb_true_r. unfold enc_ints.
+        destruct (Nat.eqb_spec l j) as [->|Hne].
+        -- rewrite Z.eqb_refl, map_app. reflexivity.
+        -- replace (Z.of_nat j =? Z.of_nat l)%Z with false by (symmetry; apply Z.eqb_neq; lia). now rewrite app_nil_r.
+      * f_equal. rewrite app_length. cbn [length]. lia.
+    + cbn [xbind dy_add]. f_equal. f_equal.
+      * do 3 f_equal. apply level_dict_ext. intros l Hl. now rewrite lnb_snoc, E3, andb_false_r, app_nil_r.
+      * f_equal. rewrite app_length. cbn [length]. lia.
+  - rewrite ln_fold. destruct (ln_lines iws dz (Some 10%Z) lines) as [lv|e]; [|reflexivity].
+    cbn [app]. now rewrite ln_guesser_lnb, enc_buckets_map.
+Qed.
+
+
+(* ---- config.txt *)
+Lemma omen_load_config_eq dir file (g : list (val * val)) :
+  py_omen_load_config fo W (VStr dir) (VStr file) (VDict g) =
+  match cp_read (w_cfg W) (w_path_join W [dir; file]) with
+  | XFail e => XFail e
+  | XDone c =>
+      match cp_get (w_cfg W) c k_training_settings k_encoding with
+      | XFail e => XFail e
+      | XDone enc =>
+          match cp_get (w_cfg W) c k_training_settings k_ngram with
+          | XFail e => XFail e
+          | XDone ntext =>
+              match parse_int iws dz ntext with
+              | None => XFail (XBase EValue)
+              | Some n => XDone (VDict (dput (VStr k_max_level) (VInt 10)
+                                        (dput (VStr k_ngram) (VInt n) (dput (VStr k_alphabet_encoding) (VStr enc) g))), VNone)
+              end
+          end
+      end
+  end.
+Proof.
+  cbv beta zeta delta [py_omen_load_config]. name_keys.
+  cbn [dy_path_join strs_of option_map xbind dy_cfg_read]. unfold pstr in *.
+  match goal with |- _ = match ?o with _ => _ end => destruct o as [c|e] end; cbn [xthen xbind]; [|now rewrite !if_same].
+  cbn [dy_cfg_get]. unfold pstr in *.
+  match goal with |- _ = match ?o with _ => _ end => destruct o as [enc|e] end; cbn [xthen xbind]; [|now rewrite !if_same].
+  cbn [dy_setitem is_key xbind]. unfold dy_cfg_getint. cbn [dy_cfg_get]. unfold pstr in *.
+  match goal with |- _ = match ?o with _ => _ end => destruct o as [nt|e] end; cbn [xthen xbind]; [|now rewrite !if_same].
+  cbn [dy_int x_opt xthen]. rewrite Hpint.
+  destruct (parse_int iws dz nt) as [n|]; cbn [x_opt xthen xbind x_isa rt_isa]; reflexivity.
+Qed.
+
+(* ---- load_rules *)
+Ltac fail_case :=
+  let H := fresh "Hreal" in
+  cbn [of_xres sum_bind xbind xthen x_isa rt_isa]; intros H; rewrite ?H; eexists; reflexivity.
+
+Theorem omen_load_rules_cases dir :
+  match omen_guesser_load fo W iws dz dir with
+  | inl t => py_omen_load_rules fo W (VStr dir) (VDict []) = XDone (enc_omen_tables t, VBool true)
+  | inr e => x_isa (XC CException) e = true ->
+             exists g', py_omen_load_rules fo W (VStr dir) (VDict []) = XDone (g', VBool false)
+  end.
+Proof.
+  unfold omen_guesser_load. cbv beta zeta delta [py_omen_load_rules]. name_keys.
+  rewrite omen_load_config_eq. unfold pstr, str in *.
+  match goal with |- context [of_xres ?o] => destruct o as [c|e] end; cbn [of_xres sum_bind]; [|fail_case].
+  match goal with |- context [of_xres ?o] => destruct o as [enc|e] end; cbn [of_xres sum_bind]; [|fail_case].
+  match goal with |- context [of_xres ?o] => destruct o as [nt|e] end; cbn [of_xres sum_bind]; [|fail_case].
+  destruct (parse_int iws dz nt) as [n|]; cbn [sum_bind]; [|fail_case].
+  cbn [xbind dput key_eqb str_eqb N.eqb Pos.eqb andb k_max_level k_ngram k_alphabet_encoding].
+  name_keys.
+  (* alphabet.txt *)
+  rewrite omen_load_alphabet_eq with (enc := enc) by reflexivity. unfold pstr, str in *.
+  match goal with |- context [of_xres ?o] => destruct o as [al|e] end; cbn [of_xres sum_bind]; [|fail_case].
+  cbn [xbind dput key_eqb str_eqb N.eqb Pos.eqb andb k_max_level k_ngram k_alphabet_encoding k_alphabet]. name_keys.
+  (* IP.level *)
+  rewrite omen_load_ngrams_ip with (enc := enc) by reflexivity. unfold pstr, str in *.
+  match goal with |- context [of_xres ?o] => destruct o as [ipl|e] end; cbn [of_xres sum_bind]; [|fail_case].
+  destruct (level_lines iws dz (Some 10%Z) ipl) as [ip|e]; cbn [sum_bind]; [|fail_case].
+  cbn [xbind dput key_eqb str_eqb N.eqb Pos.eqb andb k_max_level k_ngram k_alphabet_encoding k_alphabet k_ip]. name_keys.
+  (* EP.level *)
+  rewrite omen_load_ngrams_ep with (enc := enc) by reflexivity. unfold pstr, str in *.
+  match goal with |- context [of_xres ?o] => destruct o as [epl|e] end; cbn [of_xres sum_bind]; [|fail_case].
+  destruct (level_lines iws dz (Some 10%Z) epl) as [ep|e]; cbn [sum_bind]; [|fail_case].
+  cbn [xbind dput key_eqb str_eqb N.eqb Pos.eqb andb k_max_level k_ngram k_alphabet_encoding k_alphabet k_ip k_ep]. name_keys.
+  (* CP.level *)
+  rewrite omen_load_ngrams_cp with (enc := enc) by reflexivity. unfold pstr, str in *.
+  match goal with |- context [of_xres ?o] => destruct o as [cpl|e] end; cbn [of_xres sum_bind]; [|fail_case].
+  match goal with |- context [cp_lines ?a ?b ?c ?d ?e0] => destruct (cp_lines a b c d e0) as [cpd|e] end; cbn [sum_bind]; [|fail_case].
+  cbn [xbind dput key_eqb str_eqb N.eqb Pos.eqb andb k_max_level k_ngram k_alphabet_encoding k_alphabet k_ip k_ep k_cp]. name_keys.
+  (* LN.level *)
+  erewrite getitem_dict_found by reflexivity. cbn [xbind].
+  rewrite omen_load_length_eq by reflexivity. unfold pstr, str in *.
+  match goal with |- context [of_xres ?o] => destruct o as [lnl|e] end; cbn [of_xres sum_bind]; [|fail_case].
+  destruct (ln_lines iws dz (Some 10%Z) lnl) as [lv|e]; cbn [sum_bind]; [|fail_case].
+  cbn [xbind dput key_eqb str_eqb N.eqb Pos.eqb andb k_max_level k_ngram k_alphabet_encoding k_alphabet k_ip k_ep k_cp k_ln].
+  reflexivity.
 Qed.
 
 End OmenGuesser.
